@@ -109,7 +109,26 @@ func ExponentialBackoff(backoff time.Duration, factor, jitter float64) Backoff {
 
 		// do exponential backoff with jitter
 		temp := float64(backoff) * math.Pow(factor, float64(attempt))
-		return time.Duration(temp*(1-jitter)) + time.Duration(rand.Int64N(int64(2*jitter*temp)))
+		// the interval grows exponentially with the attempt: keep the arithmetic
+		// within the range of time.Duration, and draw no jitter from an empty range
+		const maxDuration = float64(math.MaxInt64)
+		base := temp * (1 - jitter)
+		if !(base < maxDuration) {
+			return time.Duration(math.MaxInt64)
+		}
+		interval := time.Duration(base)
+		if spread := 2 * jitter * temp; spread >= 1 {
+			n := int64(math.MaxInt64)
+			if spread < maxDuration {
+				n = int64(spread)
+			}
+			delta := time.Duration(rand.Int64N(n))
+			if interval > time.Duration(math.MaxInt64)-delta {
+				return time.Duration(math.MaxInt64)
+			}
+			interval += delta
+		}
+		return interval
 	}
 }
 
